@@ -133,6 +133,8 @@ def stmt_kinds(case):
     def routine(r):
         for _, s in walk_stmts(r['body']):
             kinds.add(s[0])
+            if s[0] == 'if1' and s[2][0] in ('exit', 'cycle'):
+                kinds.add(s[2][0] + (':named' if len(s[2]) > 1 and s[2][1] else ''))
             if s[0] == 'do':
                 kinds.add('do:' + s[6])
                 if s[4] is not None and s[4][0] == 'u':
